@@ -201,7 +201,7 @@ fn c20(args: &Args) -> i32 {
         ],
         unchecked: vec!["lock-free internals of dashmap/crossbeam are not explored at their own atomic granularity".into()],
     };
-    let batch = Batch { spec, tier: args.tier, seed: args.seed, runs: runs(args, 1_500, 150_000), workers: args.workers };
+    let batch = Batch { spec, tier: args.tier, seed: args.seed, runs: runs(args, 1_500, 30_000), workers: args.workers };
     drive(
         batch,
         &|seed, i| {
